@@ -1,6 +1,11 @@
 import GoguVerif.Go.Run
 import GoguVerif.Spec.C19
-/-! Driver wiring for C19 (linked lists): relational sequence monitor. -/
+import GoguVerif.Model.SList
+import GoguVerif.Model.DList
+/-! Driver wiring for C19 (linked lists): relational sequence monitor + the pointer-level models
+(`Model/SList.lean`, `Model/DList.lean`) run beside it.  Compared with the implementation: the
+answer of every operation, the `Each` sequence after it, panics/hangs, and for `dump` the raw
+next/prev structure with addresses canonicalised to chain positions. -/
 namespace GoguVerif.Kinds.Lists
 open GoguVerif Spec.C19
 
@@ -38,23 +43,74 @@ def parseRes (res : List Val) : Option (Ans × List Int) :=
       | _ => none
   | _ => none
 
+/-- the model's store (dead after an abnormal outcome: the case ends there) -/
+inductive MSt where
+  | s (h : Model.SList.Heap)
+  | d (h : Model.DList.Heap)
+  | dead
+
+def renderAns : Ans → List Val
+  | .ok => [.atom "ok"]
+  | .err => [.atom "err"]
+  | .notFound => [.atom "notfound"]
+  | .bool b => [Val.ofBool b]
+  | .val v => [.int v]
+  | .none => []
+
+def renderRes {α : Type} (f : α → MSt × List Val) : Model.ListRes α → MSt × List Val
+  | .ok a => f a
+  | .panic => (.dead, [.atom "panic"])
+  | .hang => (.dead, [.atom "hang"])
+  | .stuck => (.dead, [.atom "stuck"])
+
+/-- the limit the harness passes to `VerifDump` -/
+def dumpLimit : Nat := 5000
+
+/-- model answer for one protocol line -/
+def modelStep (m : MSt) (l : Line) : MSt × Option (List Val) :=
+  match m with
+  | .dead => (.dead, none)
+  | .s h =>
+    match parseOp l with
+    | none => (m, none)
+    | some op =>
+      let r := renderRes (fun (x : Model.SList.Heap × Ans × List Int) =>
+        (MSt.s x.1, renderAns x.2.1 ++ [Val.ofInts x.2.2])) (Model.SList.stepObs h op)
+      (r.1, some r.2)
+  | .d h =>
+    if l.op == "dump" then
+      let r := renderRes (fun (x : List Int × List Int × Bool) =>
+        (MSt.d h, [Val.ofInts x.1, Val.ofInts x.2.1, Val.ofBool x.2.2])) (Model.DList.dump h dumpLimit)
+      (r.1, some r.2)
+    else
+    match parseOp l with
+    | none => (m, none)
+    | some op =>
+      let r := renderRes (fun (x : Model.DList.Heap × Ans × List Int) =>
+        (MSt.d x.1, renderAns x.2.1 ++ [Val.ofInts x.2.2])) (Model.DList.stepObs h op)
+      (r.1, some r.2)
+
 structure St where
   dbl : Bool
   xs : List Int
+  m : MSt
   headEdits : Nat := 0
   midEdits : Nat := 0
 
 def kindFor (dbl : Bool) : Kind where
   σ := St
   init := fun ps => match ps with
-    | [.int v] => some { dbl := dbl, xs := [v] }
+    | [.int v] => some { dbl := dbl, xs := [v]
+                         m := if dbl then .d (Model.DList.init v) else .s (Model.SList.init v) }
     | _ => none
   step := fun st l =>
+    let (m', mans) := modelStep st.m l
+    let st := { st with m := m' }
     match l.res with
-    | [.atom "panic"] => { st := st, tags := [l.op], spec := some s!"no-panic:{l.op}" }
-    | [.atom "hang"] => { st := st, tags := [l.op], spec := some s!"terminates:{l.op}" }
+    | [.atom "panic"] => { st := st, model := mans, tags := [l.op], spec := some s!"no-panic:{l.op}" }
+    | [.atom "hang"] => { st := st, model := mans, tags := [l.op], spec := some s!"terminates:{l.op}" }
     | _ =>
-    if l.op == "dump" then { st := st, tags := ["dump"] } else
+    if l.op == "dump" then { st := st, model := mans, tags := ["dump"] } else
     match parseOp l, parseRes l.res with
     | some op, some (ans, xs') =>
       let headEdit := match op with
@@ -66,7 +122,7 @@ def kindFor (dbl : Bool) : Kind where
         | _ => false
       let st' : St := { st with xs := xs', headEdits := st.headEdits + (if headEdit then 1 else 0),
                                 midEdits := st.midEdits + (if midEdit then 1 else 0) }
-      { st := st', tags := [l.op], nontrivial := st'.headEdits ≥ 1 && st'.midEdits ≥ 1
+      { st := st', model := mans, tags := [l.op], nontrivial := st'.headEdits ≥ 1 && st'.midEdits ≥ 1
         spec := if decide (Allowed dbl st.xs op ans xs') then none else some s!"sequence:{l.op}" }
     | _, _ => { st := st, bad := some s!"bad list line {l.op}" }
 
